@@ -263,7 +263,7 @@ def strategy(thorough):
 
     @st.composite
     def case(draw):
-        p = draw(progs.program_strategy(max_fns=6 if thorough else 5, allow_alias=False, allow_explicit=False, allow_tuplist=True, allow_dictset=True, allow_twins=True, allow_rename=True))
+        p = draw(progs.program_strategy(max_fns=6 if thorough else 5, allow_alias=False, allow_explicit=False, allow_tuplist=True, allow_dictset=True, allow_twins=True, allow_rename=True, allow_nested_refs=True))
         # some variables start undefined too (a function in another module then refers to a missing module attribute)
         for dd in p["defs"]:
             if dd["k"] == "var" and draw(st.integers(0, 3)) == 0:
